@@ -549,7 +549,9 @@ pub fn run_c05m(toks: &[&str]) -> Lines {
                     let shards = mgr.registered_shard_list().await.unwrap();
                     let mut new_paths = vec![];
                     for s in shards {
-                        if s.shard.metadata.chunk_hash_hmac_key != MerkleHash::default() {
+                        // shards already exported under a key, and shards whose file an earlier `keyed .. drop` step of
+                        // this case removed (the manager still lists them), are not exported again
+                        if s.shard.metadata.chunk_hash_hmac_key != MerkleHash::default() || !s.path.exists() {
                             continue;
                         }
                         let flags: u32 = op[2].parse().unwrap();
